@@ -201,9 +201,26 @@ theorem tag_format_is_expansion_partial (w : Char → Bool) (hw : WordClass w) (
   intro n hmem
   simp [varsEnv, findVarsTag_messageText w hw ps hn, hmem]
 
-/-- The full-strength statement is false for the code as it is: the block `{{ a-b }}` makes
-`_format_message` raise `KeyError` (known finding `tag|var-not-word|raises-KeyError`). -/
+/-- The full-strength statement is false for the code as it is, even with the widened name class
+`[^()%]` of the fixed tag: a variable reached by bracket notation whose name contains a parenthesis,
+`{{ ['a)b'] }}`, makes `_format_message` raise `KeyError` (known finding
+`tag|var-paren-percent|raises-KeyError`).  With the `\w` class of the unfixed tag the same happens for
+`{{ a-b }}` (`tag_format_counterexample_word`). -/
 theorem tag_format_counterexample :
+    ¬ (∀ (val : Str → Str) (ps : List Piece),
+        tagFormatText tagNameChar val [] (messageText ps) = .ok (expandPieces val ps)) := by
+  intro h
+  have := h (fun _ => ['V']) [.var ['a', ')', 'b']]
+  have hmsg : messageText [.var ['a', ')', 'b']] = ['%', '(', 'a', ')', 'b', ')', 's'] := by decide
+  have hvars : findVarsTag tagNameChar ['%', '(', 'a', ')', 'b', ')', 's'] = [] := by decide
+  have hdir : directive (varsEnv [] (fun _ => ['V']) []) false ['(', 'a', ')', 'b', ')', 's'] = .error .keyError := by
+    rfl
+  rw [hmsg] at this
+  unfold tagFormatText format at this
+  rw [hvars, formatAux_directive_error _ _ _ hdir] at this
+  cases this
+
+theorem tag_format_counterexample_word :
     ¬ (∀ (val : Str → Str) (ps : List Piece),
         tagFormatText asciiWord val [] (messageText ps) = .ok (expandPieces val ps)) := by
   intro h
@@ -216,6 +233,13 @@ theorem tag_format_counterexample :
   unfold tagFormatText format at this
   rw [hvars, formatAux_directive_error _ _ _ hdir] at this
   cases this
+
+/-- after the fix a hyphenated identifier is an admissible name -/
+example : WordNames tagNameChar [.content ['x'], .var ['a', '-', 'b']] := by
+  intro n hn
+  simp only [varNames, List.mem_cons, List.not_mem_nil, or_false] at hn
+  subst hn
+  exact ⟨by decide, by decide⟩
 
 /-! ## Plural choice -/
 
